@@ -102,7 +102,8 @@ func init() {
 		return fmt.Sprintf("RT round trip off by %.3g / %.3g degrees", dl, dp)
 	})
 
-	codes := []int{3857, 3857, 3857, 4326, 3395, 32654, 6677, 2451, 25832, 27700, 99999, 0}
+	codes := []int{3857, 3857, 3857, 4326, 3395, 32654, 6677, 2451, 25832, 27700, 99999, 0,
+		32600, 32601, 32660, 32661, 32700, 32701, 32760, 32761, 4325, 4327, 3856, 3858} // also the neighbours of supported code ranges
 	register("proj", func(n int) {
 		for i := 0; i < n; i++ {
 			crs := codes[rng.Intn(len(codes))]
@@ -133,8 +134,11 @@ func init() {
 						lon = 0
 					case 2:
 						lat = 0
-					case 3:
+					case 3, 4:
 						lon = 180 * float64(1-2*rng.Intn(2))
+						if rng.Intn(2) == 0 {
+							lat = -rng.Float64() * 80
+						}
 					}
 					if len(prevLon) > 0 && rng.Intn(3) == 0 {
 						r := len(prevLon) - 1
